@@ -13,7 +13,7 @@ M1 = ("Lean 4 theorems about the pool machine M1 (lean/Taskpool/Model), proved f
       "property-specific projection) and the property's monitors on the real run")
 M1_NOTE = ("trusted: Lean kernel; axioms propext / Classical.choice / Quot.sound only (printed per theorem into the "
            "evidence); the unverified Python harness and its generators; CPython 3.12 asyncio is modelled, not verified; "
-           "user code is limited to harness scripts (one suspension point per worker, plain/coroutine/raising callbacks, "
+           "user code is limited to harness scripts (workers that return / raise at once or await 1-3 harness futures in a row, plain/coroutine/raising callbacks, "
            "hook alphabet without set_size)")
 M2 = ("Lean 4 theorems about the queue machine M2 (lean/Taskpool/Model/Queue.lean), proved for all histories by a "
       "refinement argument; tied to /repo on every run by lock-step execution of the real Queue under the stepped loop "
